@@ -2,8 +2,34 @@
 import json
 from pathlib import Path
 
+import sys
+
 V = Path(__file__).resolve().parent.parent
 R = json.loads((V / "seeded" / "RESULTS.json").read_text())
+
+
+def compact():
+    """one row per property, one column per variant: verdict of the property's own check (+ = caught with a concrete
+    failing input, p = caught by a broken proof/correspondence only, MISS), other catching checks in brackets"""
+    print("| property | " + " | ".join("ABCDEF") + " |")
+    print("|---|" + "---|" * 6)
+    for i in range(1, 21):
+        own = f"C{i:02d}"
+        cells = []
+        for v in "ABCDEF":
+            r = R.get(f"{own}_{v}")
+            if not r or not r.get("verified"):
+                cells.append("–"); continue
+            cs = r.get("checks", {})
+            x = cs.get(own)
+            c = "not run" if not x else ("MISS" if not x["caught"] else ("p" if x.get("no_failing_input") else "+"))
+            oth = [k for k in sorted(cs) if k != own and cs[k]["caught"]]
+            cells.append(c + (f" [{','.join(oth)}]" if oth else ""))
+        print(f"| {own} | " + " | ".join(cells) + " |")
+
+
+if "--compact" in sys.argv:
+    compact(); sys.exit(0)
 print("| seed | what was changed (independent sub-agent, property text only) | needs to manifest | own check | other checks that also catch it |")
 print("|---|---|---|---|---|")
 for k in sorted(R):
